@@ -264,6 +264,9 @@ func (c *collector) add(ctx context.Context, id string, t *tpb.Target, tt *tunne
 		t.Addresses = []string{id}
 	}
 
+	// Reserve space in the cache for the target; updates for targets unknown
+	// to the cache are dropped and subscriptions to them are refused.
+	c.cache.Add(id)
 	if err := c.tm.Add(id, t, request); err != nil {
 		return fmt.Errorf("Could not add target %q: %v", id, err)
 	}
